@@ -415,8 +415,15 @@ impl PrettyPrint for TypeExpression {
                 lhs.pretty_print() + m::space() + m::operator("/") + m::space() + with_parens(rhs)
             }
             TypeExpression::Power(_, lhs, _, exp) => {
-                with_parens(lhs)
-                    + m::operator("^")
+                // The base of a power has to be a primary expression: `(A^2)^3`
+                // can not be written as `A^2^3`.
+                let base = match lhs.as_ref() {
+                    TypeExpression::Power(..) => {
+                        m::operator("(") + lhs.pretty_print() + m::operator(")")
+                    }
+                    _ => with_parens(lhs),
+                };
+                base + m::operator("^")
                     + if exp.is_positive() && exp.is_integer() {
                         m::value(format_compact!("{exp}"))
                     } else {
